@@ -453,7 +453,8 @@ pub fn structs(module: &naga::Module, options: WriteOptions) -> «(r:» TokenStr
         let ghost k = it.index@ as int;
         let ghost v0 = global_variable_types@;
         assert(*it.seq()[k].1 == gs[k]);
-        let ghost t = handle_index(g.1.ty);»
+        let ghost t = handle_index(g.1.ty);
+        proof { lemma_call_ok_from_closed(module, v0, t); }»
         add_types_recursive(&mut global_variable_types, module, g.1.ty);
         «proof {
             let v1 = global_variable_types@;
